@@ -536,6 +536,9 @@ class Scheduler:
             assert job.type == other.type
             if other.state == JobState.ERROR:
                 logger.info("Re-submitting job")
+                # The re-submitted job is scheduled again: it has to be
+                # counted so that the experiment waits for it
+                self.xp.unfinishedJobs += 1
             else:
                 logger.warning("Job %s already submitted", job.identifier)
                 return other
